@@ -26,7 +26,27 @@ let ventry e =
   L [S (Uml.decl_line e); S (Uml.def_head e); L [S c; S r; S n; L (List.map (fun (t, x) -> L [S t; S x]) ps); vbool k]; S e.Uml.en_owner]
 let vopt_entries = function None -> L [] | Some es -> L [L (List.map ventry es)]
 
+let vcs_entry e =
+  let ((((c, r), n), ps), _k) = Uml.signature e in
+  L [S (UmlCs.cs_line e); vbool (UmlCs.cs_has_body e); L [S c; S r; S n; L (List.map (fun (t, x) -> L [S t; S x]) ps)]; S e.Uml.en_owner; vbool e.Uml.en_realised]
+let vopt_cs = function None -> L [] | Some es -> L [L (List.map vcs_entry es)]
+
 let () =
+  register "uml_ops_cs" (function [fuel; d; vis; id] ->
+      let d = diagram d in
+      vopt_cs (UmlCs.ops_of_cs (nat_of_int (int_of fuel)) d (str vis) (find_cls d (str id))) | _ -> failwith "arity");
+  register "uml_members_cs" (function [fuel; d; id] ->
+      let d = diagram d in vopt_cs (UmlCs.members_cs (nat_of_int (int_of fuel)) d (find_cls d (str id))) | _ -> failwith "arity");
+  register "uml_files_all" (function [lang; nsf; dname; d] ->
+      let tf = if str lang = "cs" then UmlSrc.template_files_cs else UmlSrc.template_files in
+      L (List.map (fun (f, c) -> L [S f; S c]) (UmlCs.files_all tf (b nsf) (str dname) (diagram d))) | _ -> failwith "arity");
+  register "uml_files_hyp_cs" (function [nsf; dname; d] -> vbool (UmlSpec.files_hyp_cs (b nsf) (str dname) (diagram d)) | _ -> failwith "arity");
+  register "uml_expected_files_cs" (function [nsf; dname; d] ->
+      L (List.map (fun (f, c) -> L [S f; S c]) (UmlSpec.expected_files_cs (b nsf) (str dname) (diagram d))) | _ -> failwith "arity");
+  register "uml_once_hyp" (function [lang; d; id] ->
+      let d = diagram d in
+      let c = find_cls d (str id) in
+      vbool (if str lang = "cs" then Uml.once_hyp (UmlCs.cs_view d) (UmlCs.cs_cls c) else Uml.once_hyp d c) | _ -> failwith "arity");
   register "uml_files" (function [lang; nsf; d] ->
       let tf = if str lang = "cs" then UmlSrc.template_files_cs else UmlSrc.template_files in
       L (List.map (fun (f, c) -> L [S f; S c]) (Uml.files_of tf (b nsf) (diagram d))) | _ -> failwith "arity");
